@@ -23,7 +23,7 @@ COMMON_NOTE = ("Trusted base: Kani 0.68 / CBMC 6.11 translation of the compiled 
 
 CLAIMS = {
     "C01": {
-        "text": "Writer half only, token kernels: for ALL names of 1-3 bytes (4 in the thorough tier), ALL literal strings of 1-2 bytes, ALL 2- and 4-byte hex strings and ALL i16 integers the bytes lopdf writes are decoded by an ISO 32000-1 (7.3.3-7.3.5) reference reader to exactly the original value; need_separator/need_end_separator agree with the first/last byte write_object emits for null, booleans, ALL i16 integers, references and every 1-byte name; write_array keeps adjacent elements apart ([i j] for ALL i8 pairs read back; [/n null], [/n true], [/n 7] for every regular 1-byte name; [true N], [null null], [3 0 R N]); null/true/false and 'id gen R' spellings for ALL u16 ids x u8 generations; free/compressed xref-table entries are 20-byte 'f' entries (in-use entries for ALL u32 offsets x u16 generations in the thorough tier); a subsection is 'first count' EOL + count x 20 bytes for ANY u16 first id; the binary-mark line is '%' + 4 bytes >= 128 + LF or an error; the [1 4 2] cross-reference-stream row packing is inverted by the reader's own big-endian field decoder for ALL (u8,u32,u16).",
+        "text": "Writer half only, token kernels: for ALL names of 1-3 bytes (4 in the thorough tier), ALL literal strings of 1-2 bytes, ALL 2- and 4-byte hex strings and ALL i16 integers the bytes lopdf writes are decoded by an ISO 32000-1 (7.3.3-7.3.5) reference reader to exactly the original value; need_separator/need_end_separator agree with the first/last byte write_object emits for null, booleans, ALL i16 integers, references and every 1-byte name; write_array keeps adjacent elements apart ([i j] for ALL i8 pairs read back; [/n null], [/n true], [/n 7] for every regular 1-byte name; [true N], [null null], [3 0 R N], [(c) 5], [<hh> /N]); null/true/false and 'id gen R' spellings for ALL u16 ids x u8 generations; free/compressed xref-table entries are 20-byte 'f' entries (in-use entries for ALL u32 offsets x u16 generations in the thorough tier); a subsection is 'first count' EOL + count x 20 bytes for ANY u16 first id; the binary-mark line is '%' + 4 bytes >= 128 + LF or an error; the [1 4 2] cross-reference-stream row packing is inverted by the reader's own big-endian field decoder for ALL (u8,u32,u16).",
         "design_ref": "DESIGN.md section 4 C01",
         "note": COMMON_NOTE + "NOT decided: Document::save_to/load_mem as a whole, nesting, separators between array/dictionary elements, reals, strings/names longer than 2 bytes, the reader (parser) side, both feature configurations. A regression there is not detected.",
     },
@@ -43,7 +43,7 @@ CLAIMS = {
         "note": COMMON_NOTE + "NOT decided: Document::encrypt/decrypt, encrypt_object/decrypt_object on strings, streams and containers (object walking, Crypt overrides, Metadata/XRef exemptions: > 12 GB), AES filters (the aes crate triggers a kani-compiler internal error: intrinsics.rs:243), password authentication, save/reload. The claim covers the RC4/PKCS#5/identity primitives only.",
     },
     "C06": {
-        "text": "Agreement with the standard for the pieces that could be encoded: Algorithm 1 (per-object keys, RC4 40/128-bit and AESV2) - the exact byte string fed to MD5 and the truncation, for ALL file keys, object numbers and generations; Algorithm 1.A (AESV3: 32-byte key used as is, no MD5); Algorithm 2 for revision 2 (MD5 input layout: padded password, O, P little-endian, file id; single digest; 5-byte key) for ALL 5-byte passwords, O entries, permission words and file ids; Permissions::p_value vs Table 22 for ALL 2^64 bit patterns; RC4 vs the published test vector on ALL 8-byte plaintexts and vs an independent reference RC4 across the 255-byte index wrap-around (262-byte stream) (two more keys in the thorough tier); PKCS#5 padding for ALL blocks.",
+        "text": "Agreement with the standard for the pieces that could be encoded: Algorithm 1 (per-object keys, RC4 40/128-bit and AESV2) - the exact byte string fed to MD5 and the truncation, for ALL file keys, object numbers and generations; Algorithm 1.A (AESV3: 32-byte key used as is, no MD5); Algorithm 2 for revision 2 (MD5 input layout: padded password, O, P little-endian, file id; single digest; 5-byte key) for ALL passwords of length 0, 5 and 33 (padding and truncation to 32 bytes), O entries, permission words and file ids; Permissions::p_value vs Table 22 for ALL 2^64 bit patterns; RC4 vs the published test vector on ALL 8-byte plaintexts and vs an independent reference RC4 across the 255-byte index wrap-around (262-byte stream) (two more keys in the thorough tier); PKCS#5 padding for ALL blocks.",
         "design_ref": "DESIGN.md section 4 C06",
         "note": COMMON_NOTE + "MD5 itself is replaced by a recording model (the message construction is what lopdf owns). NOT decided: Algorithm 2 for revisions 3-4 (the 50-round harnesses exceed the memory cap), Algorithms 2.A/2.B and 3-13, R5/R6, AES ciphertexts, interoperability on whole files.",
     },
